@@ -27,13 +27,21 @@ def _coarse_geometry(bins, k):
     return rows, newid
 
 
+def _bins_for(p):
+    bins = concrete_bins(p["layout"], p["kind"])
+    if p.get("chrom_names"):
+        # chromosome names whose given order is not the lexicographic one
+        bins["chrom"] = bins["chrom"].map({f"c{i}": nm for i, nm in enumerate(p["chrom_names"])})
+    return bins
+
+
 def coarsen_sym(p):
     from engine import symh5
     symh5.reset()
     sc = symcooler()
     layout, K, upper, nproc = p["layout"], p["K"], p["upper"], p["nproc"]
     n = sum(layout)
-    bins = concrete_bins(layout, p["kind"])
+    bins = _bins_for(p)
     b1, b2, v = sym_pixels(n, K, upper)
     w = [sym_int(f"w{q}", 1, 9) for q in range(K)]
     cdt = "int32"
@@ -55,7 +63,9 @@ def coarsen_sym(p):
         prove(cond, "coarsened output: " + msg)
     g = symh5.File(out, "r")
     nb = [list(g["bins/chrom"][:]), list(g["bins/start"][:]), list(g["bins/end"][:])]
-    names = [f"c{i}" for i in range(len(layout))]
+    names = list(dict.fromkeys(bins["chrom"].tolist()))
+    got_names = [x.decode() if isinstance(x, bytes) else str(x) for x in g["chroms/name"][:]]
+    prove(got_names == names, f"chromosome table of the output {got_names} is not the source's, in its order {names}")
     exp_rows = [[names.index(r[0]), r[1], r[2]] for r in rows]
     prove(len(nb[0]) == len(exp_rows) and and_(*[and_(nb[0][i] == e[0], nb[1][i] == e[1], nb[2][i] == e[2]) for i, e in enumerate(exp_rows)]),
           "new bin table is not the union of k consecutive old bins per chromosome")
@@ -84,7 +94,7 @@ def coarsen_real(p, inputs):
     import cooler
     import h5py
     layout, K, upper, nproc = p["layout"], p["K"], p["upper"], p["nproc"]
-    bins = concrete_bins(layout, p["kind"])
+    bins = _bins_for(p)
     b1, b2, v = pixels_from_inputs(inputs, K)
     w = [inputs[f"w{q}"] for q in range(K)]
     cdt = "int32"
@@ -98,9 +108,12 @@ def coarsen_real(p, inputs):
                           **({"dtypes": {"w": np.dtype("int64")}} if p.get("partial_dtypes") else {}))
     validity_real(out)
     rows, newid = _coarse_geometry(bins, k)
-    names = [f"c{i}" for i in range(len(layout))]
+    names = list(dict.fromkeys(bins["chrom"].tolist()))
     with h5py.File(out, "r") as g:
         nb = [g["bins/chrom"][:].tolist(), g["bins/start"][:].tolist(), g["bins/end"][:].tolist()]
+        got_names = [x.decode() if isinstance(x, bytes) else str(x) for x in g["chroms/name"][:]]
+    if got_names != names:
+        raise OracleFailure(f"chromosome table of the output {got_names} is not the source's, in its order {names}")
     exp_rows = [[names.index(r[0]), r[1], r[2]] for r in rows]
     if [list(x) for x in zip(*nb)] != exp_rows:
         raise OracleFailure(f"new bin table {list(zip(*nb))} is not the union of {k} consecutive old bins per chromosome {exp_rows}")
@@ -135,6 +148,8 @@ def _cases(tier):
                 if nproc > 1:
                     c["validate_every"] = 5  # the real run forks real worker processes: sample these
                 out.append(c)
+    # chromosome names whose order in the file is not the lexicographic one
+    out.append(dict(layout=[2, 1], kind="variable", K=2, upper=True, nproc=1, kmax=2, agg="sum", chrom_names=["chr2", "chr10"]))
     # a float64 count column with fractional values, coarsened without an explicit dtype
     out.append(dict(layout=[3], kind="fixed", K=2, upper=True, nproc=1, kmax=2, agg="sum", float_counts=True))
     # ... and with a dtypes dict that names only some of the columns: the others keep the source's types
